@@ -241,7 +241,13 @@ def run(ctx):
         for n in walk_no_nested(f):
             if isinstance(n, ast.Assign) and isinstance(n.targets[0], ast.Subscript) and unparse(n.targets[0].value) == ret and fo.tag(n.targets[0].slice) == "37":
                 v = unparse(n.value)
-                okv = pq == q or re.fullmatch(rf"self\.{pq.split('.')[-1]}\(\w+\)( if \w+ is not None else 0)?", v) is not None
+                pat = rf"self\.{pq.split('.')[-1]}\(\w+\)( if \w+ is not None else 0)?"
+                okv = pq == q or re.fullmatch(pat, v) is not None
+                if not okv and isinstance(n.value, ast.Name) and pq != q:
+                    # through a local: every value it can hold is the producer's result for the order, or 0 where no order is registered
+                    dd = [x.value for x in walk_no_nested(f) if isinstance(x, ast.Assign) and len(x.targets) == 1 and unparse(x.targets[0]) == n.value.id]
+                    okv = bool(dd) and all(re.fullmatch(pat, unparse(d)) is not None or (isinstance(d, ast.Constant) and d.value == 0) for d in dd) \
+                        and any(re.fullmatch(pat, unparse(d)) for d in dd)
                 if pq == q:
                     okv = isinstance(n.value, ast.Name)
                 ctx.instance(R3, f"{q.split('.')[-1]}[OrderID(37) from the per-order record]", okv,
